@@ -378,7 +378,23 @@ func (r *dlRoles) walk(f *ssa.Function, path upath) dlPath {
 			// pending == 0 / != 0 (after the decrement)
 			if ep, ok := pendLoadEpoch[cm.X]; ok {
 				if c, ok2 := constInt(cm.Y); ok2 && c == 0 && ep == pendEpoch && pendEpoch > 0 {
-					z := cm.Op == token.EQL
+					switch cm.Op {
+					case token.EQL, token.NEQ:
+						z := cm.Op == token.EQL
+						pendZeroAfterDec = &z
+					case token.LEQ: // pending <= 0 (the counter is unsigned): zero
+						if isUnsignedVal(cm.X) {
+							z := true
+							pendZeroAfterDec = &z
+						}
+					}
+				}
+				continue
+			}
+			if ep, ok := pendLoadEpoch[cm.Y]; ok {
+				// 0 < pending (the counter is unsigned): not zero
+				if c, ok2 := constInt(cm.X); ok2 && c == 0 && ep == pendEpoch && pendEpoch > 0 && cm.Op == token.LSS && isUnsignedVal(cm.Y) {
+					z := false
 					pendZeroAfterDec = &z
 				}
 				continue
@@ -657,4 +673,9 @@ func lastPos(pt upath, f *ssa.Function) token.Pos {
 		}
 	}
 	return f.Pos()
+}
+
+func isUnsignedVal(v ssa.Value) bool {
+	b, ok := v.Type().Underlying().(*types.Basic)
+	return ok && b.Info()&types.IsUnsigned != 0
 }
